@@ -75,6 +75,16 @@ Example C07_nonvacuous_const :
   scan const_score (repeat 0%N 12) 5 2 = Some [mkInterval [0;0]%N 3 0 8; mkInterval [0;0]%N 7 4 8].
 Proof. exact scan_example_const. Qed.
 
+(* simple_scan reports (bucket, start, len) only: the checker run on the implementation's intervals accepts iff for every
+   interval SOME p-mer position passes the per-interval test of check_scan (bounds, inside every k-mer, minimal score) and
+   has the reported bucket, and the chain conditions (a), (b) hold *)
+Theorem C07_check_simple_sound : forall seq k p sc l, check_simple seq k p sc l = true ->
+  Forall (fun x => exists q, check_iv seq k p sc (mkS (sub q p seq) q (snd (fst x)) (snd x)) = true /\
+                             bucket16 (sub q p seq) = fst (fst x)) l /\
+  check_simple_chain seq k l = true.
+Proof. exact check_simple_sound. Qed.
+Print Assumptions C07_check_simple_sound.
+
 Print Assumptions C07_scan_spec.
 Print Assumptions C07_no_inner_panic.
 Print Assumptions C07_scan_raw_ok.
